@@ -468,6 +468,11 @@ namespace c07
         if(early0 && !(rec.d0 < set.tol_abs_low || rec.d0 <= EPS * EPS || f_converged(set, rec.d0, rec.d0))) V("success-at-iteration-0-unjustified", det);
         // ... and the true residual of the returned vector satisfies it up to rounding
         const LD f = 1.0L + 1e-6L;
+        // DESIGN 6.21 guard: the true-residual clause is only judged for thresholds >= 1e-10 relative to the initial defect
+        // (tol_rel = 0 / tol_abs = 0 settings demand an exactly vanishing recurrence residual; what the true residual does
+        // at that level is rounding, not status semantics)
+        if(!early0 && std::min((LD)set.tol_abs, std::max((LD)set.tol_rel * d0, (LD)set.tol_abs_low)) < 1e-10L * d0)
+        { c.count("success:threshold-below-1e-10-relative(true residual not judged)"); if(rec.iters < set.min_iter) V("num_iter<min_iter", det, {(si.half_step && rec.trace.size() == std::size_t(rec.iters)) ? "half-step-stop" : ""}); break; }
         const bool ok = xfinite && dx <= (LD)set.tol_abs * f + slack && (dx <= (LD)set.tol_rel * d0 * f + slack || dx <= (LD)set.tol_abs_low * f + slack
           || (early0 && d0 <= (LD)(EPS * EPS) + slack));
         {
@@ -598,11 +603,14 @@ namespace c07
     const int nruns = do_update ? int(r.range(3, 4)) : int(r.range(2, 4));
     if(do_update) c.tag("history:value_update+init_numeric");
     bool resym = false;
+    // RGCR only: number of search directions the object holds from earlier solves, modelled from the iteration counts
+    // (each apply/correct keeps a quarter of its list, rgcr.hpp:150/169; done_numeric / done_symbolic clear it)
+    Index rg_stored = 0; Index effdim0 = 0; for(char fx : p0.s.fixed) effdim0 += fx ? 0 : 1;
     for(int run = 0; run < nruns; ++run)
     {
       if(do_update && run == 1)
       {
-        is.done_numeric();
+        is.done_numeric(); rg_stored = 0;
         // CG-type solvers stay SPD; the others switch symmetry class where the layout allows it
         p_upd = regen_on_layout(r, p0, si.spd_only ? true : !p0.spd);
         c08::write_values(local_matrix, p_upd.s);
@@ -647,6 +655,7 @@ namespace c07
       if(bscale == 0.0) rc.rtags.push_back("def0:zero");
       else if(bscale < set.tol_abs_low) rc.rtags.push_back("def0:below_tol_abs_low");
       if(si.recycles && run > 0) rc.rtags.push_back("recycled");
+      if(si.recycles && rg_stored > 0) rc.rtags.push_back(rg_stored >= effdim0 ? "rgcr:stored_dirs>=dim" : "rgcr:stored_dirs>0");
       if(updated) rc.rtags.push_back("history:value_update+init_numeric");
       if(set.min_iter > 0) rc.rtags.push_back("min_iter>0");
       if(set.min_iter == set.max_iter) rc.rtags.push_back("min_iter==max_iter");
@@ -662,7 +671,16 @@ namespace c07
       // repetition on the same object: apply with other garbage in x / correct with the same start vector
       RunRec r2 = run_solver<TP_>(c, env, is, use_correct, x0, b, int(r.below(4)));
       c.event();
-      if(si.recycles) { rc.phase += "-repeat"; judge(c, rc, r2); }
+      if(si.recycles)
+      {
+        rg_stored = std::max(rg_stored, r1.iters) / 4;
+        RunCtx rc2 = rc; rc2.phase += "-repeat";
+        if(std::find(rc2.rtags.begin(), rc2.rtags.end(), "recycled") == rc2.rtags.end()) rc2.rtags.push_back("recycled");
+        if(rg_stored > 0 && std::find_if(rc2.rtags.begin(), rc2.rtags.end(), [](const std::string& t) { return t.rfind("rgcr:stored_dirs", 0) == 0; }) == rc2.rtags.end())
+          rc2.rtags.push_back(rg_stored >= effdim0 ? "rgcr:stored_dirs>=dim" : "rgcr:stored_dirs>0");
+        judge(c, rc2, r2);
+        rg_stored = std::max(rg_stored, r2.iters) / 4;
+      }
       else if(r1.st != r2.st || r1.iters != r2.iters || !bits_equal(r1.x, r2.x) || !same_bits(r1.dfin, r2.dfin) || !same_bits(r1.d0, r2.d0))
       {
         Index wi = 0; for(Index i = 0; i < n; ++i) if(!same_bits(r1.x[i], r2.x[i])) { wi = i; break; }
@@ -694,7 +712,7 @@ namespace c07
         }
       }
       // solution against the dense LU reference of the filtered system
-      if(!forced && r1.st == Status::success && n <= 60 && set.tol_rel >= 1e-10 && bscale != 0.0 && (r1.iters == 0 || set.min_iter < set.max_iter || set.min_stag_iter > 0))
+      if(!forced && r1.st == Status::success && n <= 60 && bscale != 0.0 && std::min(set.tol_abs, std::max(set.tol_rel * bscale, set.tol_abs_low)) >= 1e-10 * bscale && (r1.iters == 0 || set.min_iter < set.max_iter || set.min_stag_iter > 0))
       {
         DenseRef dr = dense_reference(s, use_correct ? x0 : zero, b, true);
         if(dr.ok)
@@ -713,9 +731,9 @@ namespace c07
       if(run + 1 < nruns)
       {
         const int life = int(r.below(5));
-        if(life == 1) { is.done_numeric(); is.init_numeric(); c.tag("life:renumeric"); }
-        else if(life == 2) { is.done(); is.init(); c.tag("life:reinit"); resym = true; }
-        else if(life == 3) { is.done_numeric(); is.done_symbolic(); is.init_symbolic(); is.init_numeric(); c.tag("life:resymbolic"); resym = true; }
+        if(life == 1) { is.done_numeric(); is.init_numeric(); c.tag("life:renumeric"); rg_stored = 0; }
+        else if(life == 2) { is.done(); is.init(); c.tag("life:reinit"); resym = true; rg_stored = 0; }
+        else if(life == 3) { is.done_numeric(); is.done_symbolic(); is.init_symbolic(); is.init_numeric(); c.tag("life:resymbolic"); resym = true; rg_stored = 0; }
       }
     }
     is.done_numeric(); is.done_symbolic();
